@@ -81,7 +81,9 @@ PROP_SYNC = {
 
 def in_group(key, group):
     if group == "vbint":
-        return key.startswith("vbint.") or key == "buffer.get"
+        # the variable byte integer type, and the call sites that read one: the guarded
+        # reader (property length, subscription identifier) and the fixed header (remaining length)
+        return key.startswith("vbint.") or key.startswith("buffer.") or key.startswith("fixedHeader.")
     return group in group_of(key)
 
 
